@@ -555,6 +555,7 @@ class Seq:
         e.names = dict(env.names)
         if hasattr(env, "cdepth"):
             e.cdepth = env.cdepth
+        e.carried = dict(getattr(env, "carried", {}))
         return e
 
     def expr(self, n, env):
@@ -575,6 +576,7 @@ class Seq:
             for l in carried:
                 if l in e2.names:
                     e2.names[l] = "loop(%s)" % e2.names[l]
+                    e2.carried[l] = e2.names[l]
             if pat is not None:
                 self.bind(pat, "(each %s)" % canon(it, env), e2)
             self.out.append("for each %s {" % canon(it, env))
@@ -658,6 +660,9 @@ class Seq:
             for rx in self.spec.get("assign", []):
                 if re.search(rx, lcanon):
                     self.out.append("%s := %s" % (lcanon, canon(n["r"], env)))
+            if l and l[0] in getattr(env, "carried", {}):
+                # the value a loop-carried local takes into the next iteration
+                self.out.append("carry %s %s %s" % (env.carried[l[0]], ":=" if k == "Assign" else "op=", canon(n["r"], env)))
             if l and k == "Assign":
                 env.names[l[0]] = canon(n["r"], env)
             return
